@@ -350,7 +350,19 @@ fn gen_case(rng: &mut Rng, thorough: bool) -> (u8, Vec<String>) {
     (mode, ops)
 }
 
+/// a panic inside the real queue (e.g. a `Bug` from a failed `assume`, which panics in debug
+/// builds, or an index out of bounds) is a violation with the case's op list as replay
+fn guarded_case(rec: &mut Recorder, ops: &[String]) {
+    let r = vh::catch(std::panic::AssertUnwindSafe(|| run_case(rec, ops)));
+    if let Err(msg) = r {
+        let mut input = vec!["new".to_string()];
+        input.extend(ops.iter().cloned());
+        rec.oracle_fail_with(format!("the real TraversalQueue panicked: {msg}"), input);
+    }
+}
+
 fn main() {
+    vh::quiet_panics();
     let args = Args::parse();
     let mut rec = Recorder::new(&args.out);
     if let Some(p) = &args.replay {
@@ -359,7 +371,7 @@ fn main() {
             .filter(|l| l != "new" && l != "dbg")
             .collect();
         rec.begin_case();
-        run_case(&mut rec, &ops);
+        guarded_case(&mut rec, &ops);
         rec.finish(args.seed, &args.tier);
         return;
     }
@@ -379,7 +391,7 @@ fn main() {
         if rec.cases() <= 2 {
             rec.sample(ops.join("; "));
         }
-        run_case(&mut rec, &ops);
+        guarded_case(&mut rec, &ops);
     }
     rec.finish(args.seed, &args.tier);
 }
